@@ -97,6 +97,8 @@ def run(ck, fb):
     ck.borrow('rules.c02', {'R02s': 'R01u'}, 'an acknowledged write whose log record is cut by a later preallocation step is missing after the restart')
     r01t(ck, fb)
     r01w(ck, fb)
+    r01y(ck, fb)
+    r01z(ck, fb)
     ck.borrow('rules.c07', {'R07f': 'R01x'}, 'a snapshot must be labelled with the index of the last entry it contains: last_applied_log advances when the apply is accepted, otherwise the replay after a restart applies an entry twice')
     ck.borrow('rules.c19', {'R19h': 'R01q'}, 'a request served while the restore is still running is applied on top of a state that is about to be overwritten by it')
     ck.borrow('rules.c20', {'R20g': 'R01p'}, 'a snapshot whose header record is longer than one read chunk must still be readable at start-up, otherwise everything it covers is missing after the restart')
@@ -959,3 +961,82 @@ def r01w(ck, fb, R='R01w'):
         clock = [s0 for x in util.region(fb, l) for s0 in x.calls(r'now_second|now_millis|SystemTime::now|Local::now')]
         ck.require(not clock, R, 'load_snapshot_record:no-clock', clock[0].where() if clock else l.where(),
                    'load_snapshot_record reads the clock: what a loaded entry means depends on when the snapshot is loaded')
+
+
+def r01y(ck, fb, R='R01y'):
+    ck.rule(R, '"serves again, unchanged": the namespace list is served in the order of NamespaceActor.id_order_list (creation order), and '
+               'load_snapshot_record rebuilds that list from the order of the snapshot records. The snapshot builder therefore writes the namespace '
+               'records in the order of the field the served list iterates - not in the order of the HashMap that holds the values, which differs '
+               'from process to process')
+    NS = 'rnacos::namespace::NamespaceActor::'
+    bs = ck.body(NS + 'build_snapshot', R)
+    ql = ck.body(NS + 'query_list', R)
+    if not (bs and ql):
+        return
+
+    def iterated_fields(b):
+        out = []
+        for x in util.region(fb, b, 1):
+            for s0 in x.calls(r'IntoIterator>::into_iter$|::iter$|::values$|::keys$'):
+                f = util.recv_fields(x, s0)
+                if f:
+                    out.append((f[-1], s0))
+        return out
+    served = [f for (f, s0) in iterated_fields(ql)]
+    ck.require(len(set(served)) == 1, R, 'query_list:one-order', ql.where(), 'the served list iterates %s: anchor lost' % sorted(set(served)))
+    if len(set(served)) != 1:
+        return
+    order = served[0]
+    # the loop of build_snapshot that sends the per-namespace records
+    sends = [s0 for (s0, m0, v0, a0) in util.sends(bs, r'SnapshotWriterRequest$', 'Record')]
+    ck.floor(R, 'record writes in the namespace snapshot builder', len(sends), 1)
+    its = iterated_fields(bs)
+    heads = [(f, s0) for (f, s0) in its if any(s1.bb in cfg.reach_from(bs, [s0.bb]) for s1 in sends)]
+    outer = [f for (f, s0) in heads if not any(cfg.dominates_blocks(bs, {s2.bb}, s0.bb) for (f2, s2) in heads if s2 is not s0)]
+    ck.require(bool(outer) and all(f == order for f in outer), R, 'build_snapshot:records-in-served-order', bs.where(),
+               'the namespace snapshot is written by iterating %s while the list is served (and rebuilt on load) in the order of %s: after a restart from '
+               'a snapshot the namespace list comes back in another order' % (sorted(set(outer)), order), 'iterates %s' % order)
+
+
+def r01z(ck, fb, R='R01z'):
+    ck.rule(R, '"no matter how the preceding writes and log compactions were interleaved": a snapshot holds exactly the entries up to the last_index of '
+               'its header - the replay after a restart starts at last_index + 1. StateApplyManager fixes last_index when BuildSnapshot is handled and '
+               'then asks the seven components for their records one after the other; entries applied meanwhile (async-raft spawns the compaction and '
+               'keeps applying) reach the components before they are asked, are inside the snapshot, and are applied a second time by the replay '
+               '(a sequence advanced twice, a counter incremented twice, a config history with the same publishes twice). The part of the build that '
+               'asks the components (RaftDataHandler::build_snapshot) runs in a future the actor waits for (ctx.wait), as the start-up load and the '
+               'snapshot installation do - or the handler of BuildSnapshot is not a future at all')
+    H = '<rnacos::raft::filestore::raftapply::StateApplyManager as actix::Handler<rnacos::raft::filestore::raftapply::StateApplyAsyncRequest>>::handle'
+    h = ck.body(H, R)
+    if not h:
+        return
+    reg = util.region(fb, h, 3)
+    holders = [x for x in reg if x.calls(r'RaftDataHandler::build_snapshot$')]
+    ck.floor(R, 'bodies on the BuildSnapshot path that ask the components for records', len(holders), 1)
+    if not holders:
+        return
+    # the closure / async block of the handler from which the fan-out is reached, and how that future is registered
+    def root_closure(x):
+        while x.parent and x.parent != h.name and fb.bodies.get(x.parent) is not None and fb.bodies[x.parent].name != h.name:
+            x = fb.bodies[x.parent]
+        return x
+    ok = False
+    for x in holders:
+        # walk up: the async block inside `handle` that (transitively) awaits the fan-out
+        blocks = [c for c in fb.tree(H)[1:] if c is x or any(y is x for y in util.region(fb, c, 3))]
+        for c in blocks:
+            # where is this closure created in handle, and does the value flow into a wait registration?
+            for (i, j, st, cdef) in h.closures_created():
+                if cdef != c.name:
+                    continue
+                d = st.get('d')
+                t = Taint(h, local_src=[d] if isinstance(d, int) else [])
+                for s0 in h.calls(r'ContextFutureSpawner::wait$|AsyncContext::wait$'):
+                    if any(t.op_tainted(a) for a in s0.args):
+                        ok = True
+    ck.require(ok, R, 'BuildSnapshot:serialised-with-apply', h.where(),
+               'the future that asks the components for their snapshot records is returned as an ordinary actor future (polled between other messages): '
+               'ApplyRequest / ApplyBatchRequest for entries after the snapshot\'s last_index are handled meanwhile and change the components before '
+               'they are asked - the snapshot contains entries its header does not cover and the restart replays them again (leader: NextId answers 5 '
+               'on the running node and 6 after the restart; follower batch: counter 2 -> 3, history [a=1,a=2,a=1] -> [a=1,a=2,a=1,a=2,a=1])',
+               'registered with ctx.wait')
